@@ -136,6 +136,14 @@ impl Monitor for C14 {
                         cov.probe("maximum_lowered_below_the_stored_accumulator");
                     }
                 }
+                // the trade-enable time is fixed when the pool is created; nothing afterwards may move (or clear) the gate
+                if post_o.trade_enable_timestamp != pre_o.trade_enable_timestamp || post_o.whirlpool != pre_o.whirlpool {
+                    out.push(viol("trade_enable_time_changed", ev.idx, format!("after {} the oracle {} names pool {} with trade-enable time {} (before: pool {} time {}); trading must stay refused until the time set at creation", ev.tag, m.pubkey, post_o.whirlpool, post_o.trade_enable_timestamp, pre_o.whirlpool, pre_o.trade_enable_timestamp)));
+                    return out;
+                }
+                if post_o.trade_enable_timestamp > ev.clock.unix_timestamp.max(0) as u64 && post_o.c != pre_o.c {
+                    cov.probe("constants_changed_before_the_trade_enable_time");
+                }
                 if post_o.v.volatility_accumulator > post_o.c.max_volatility_accumulator {
                     out.push(viol("stored_accumulator_above_maximum", ev.idx, format!("after {} the oracle {} stores volatility accumulator {} but the configured maximum is {}", ev.tag, m.pubkey, post_o.v.volatility_accumulator, post_o.c.max_volatility_accumulator)));
                     return out;
